@@ -287,6 +287,8 @@ def _worker(args):
         meta = {"profile": profile_name, "seed": seed, "mode": profile.get("_mode", {}), "quiesce": profile.get("quiesce", False),
                 "tier": os.environ.get("VERIF_TIER_EFFECTIVE", "quick")}
         if profile.get("_special"):
+            if profile.get("_exhaustive"):
+                profile = dict(profile, _index=idx)
             history, meta2 = special_history(pid, profile, seed)
             meta.update(meta2)
         else:
@@ -545,6 +547,11 @@ def main():
                     "correspondence_mismatches": ndiff, "ops_run": sum(ops.values()), "operation_histogram": ops,
                     "error_histogram": errs, "trigger_histogram": trig, "known_finding_hits": known_counts,
                     "profiles": [(n, c) for n, _, c in profs]})
+        ex = [(n, p_, c) for n, p_, c in profs if p_.get("_exhaustive")]
+        if ex:
+            cov["exhaustive_subspace"] = {"complete": True, "histories": ex[0][2], "length": ex[0][1]["L"],
+                                          "alphabet": ["%s by side s%d" % (a, k) if k else a for k, a in __import__("props").EXH_SYMBOLS],
+                                          "note": "every word of this length over the alphabet (3 sides, 1 app, 1 nameplate and its mailbox) was run on the code and on the model(s) and checked by the oracle"}
 
     if pid == "C17" and eng is None:
         # the same histories through the REAL Autobahn/Twisted stack on 127.0.0.1
